@@ -87,4 +87,13 @@ theorem gen_summary_piece (nextStart s len : Nat) :
   delta Gen.bs_part_len Gen.bs_skip
   constructor <;> first | rfl | grind | (rw [Bool.eq_iff_iff]; atoms_norm; omega)
 
+/-- **Where the final drain stops.** After the last entry of a chromosome both sweeps flush what is still open up to a bound that no
+    32-bit coordinate exceeds (`u32::MAX`, regenerated from the two `unwrap_or` defaults) — not up to the declared chromosome length:
+    an entry may legally reach past it (the writer refuses only a START at or beyond the length) and its bases count. -/
+theorem gen_final_bound (chromLength e : Nat) (he : e < 2 ^ 32) :
+    Gen.bs_final_bound chromLength = 4294967295 ∧ Gen.bzs_final_bound chromLength = 4294967295 ∧
+    e ≤ Gen.bs_final_bound chromLength ∧ e ≤ Gen.bzs_final_bound chromLength := by
+  delta Gen.bs_final_bound Gen.bzs_final_bound
+  refine ⟨?_, ?_, ?_, ?_⟩ <;> first | rfl | omega | (atoms_norm; omega) | grind
+
 end Sweep
